@@ -1,4 +1,5 @@
 import Driver.Wire
+import Driver.Mi
 import RdestModel.Meta.Geometry
 import RdestModel.Meta.Path
 namespace Driver
@@ -27,6 +28,19 @@ def c03 (args res : List String) : Verdict :=
       if implFiles ≠ specToks then vProp "T2-file-contents-differ-from-content-slices" tag
       else if model.map toHex ≠ implFiles then vDiff "extract" (",".intercalate (model.map toHex)) tag
       else vOk tag
+    | _, _ => vBad (joinToks args)
+  | ["exg", pls, lens, seedS], r :: rest =>
+    -- large geometries: content from (length, seed); files compared by SHA-1 and length with the content's slices
+    match pls.toNat?, seedS.toNat? with
+    | some _, some seed =>
+      let ls := natList lens
+      let content := patternBytes ls.sum seed
+      let spec := (extractSpec ls content).map fun f => s!"{toHex (Rdest.Sha1.sha1 f)}:{f.length}"
+      if r = "err" ∨ r = "noparse" ∨ r = "P" then vProp s!"T2-extraction-{r}" "exg" else
+      let implFiles := match rest with
+        | [fs] => if fs = "-" then [] else fs.splitOn ","
+        | _ => []
+      if implFiles ≠ spec then vProp "T2-file-contents-differ-from-content-slices" "exg" else vOk "exg"
     | _, _ => vBad (joinToks args)
   | ["geo", pls, lens], _ =>
     match pls.toNat? with
